@@ -37,8 +37,10 @@ class LoopSpec(object):
 
 
 class Contract(object):
-    def __init__(self, qualname):
+    def __init__(self, qualname, variant=None):
         self.qualname = qualname
+        self.variant = variant
+        self.key = qualname + ('#' + variant if variant else '')
         self.arg_kinds = {}
         self.requires_ = []
         self.ensures_ = []
@@ -54,6 +56,7 @@ class Contract(object):
         self.cases_ = None
         self.notes = []
         self.lets = []           # ghost definitions (name, expr) evaluated in pre-state
+        self.callee_variant = None
 
     # ---- declaration API
     def args(c, **kinds):
@@ -109,6 +112,12 @@ class Contract(object):
         self.notes.append(note)
         return self
 
+    def use_variant(self, name):
+        """While proving this contract, callees that have a variant of this name are
+        used through that variant (whose preconditions are then proved at the call)."""
+        self.callee_variant = name
+        return self
+
     def props(self, *ids):
         self.properties.update(ids)
         return self
@@ -117,11 +126,14 @@ class Contract(object):
 REGISTRY = {}
 
 
-def contract(qualname):
-    c = REGISTRY.get(qualname)
+def contract(qualname, variant=None):
+    """variant=None is the contract used at call sites; named variants are extra
+    specifications of the same function proved separately (e.g. 'accepts')."""
+    key = qualname + ('#' + variant if variant else '')
+    c = REGISTRY.get(key)
     if c is None:
-        c = Contract(qualname)
-        REGISTRY[qualname] = c
+        c = Contract(qualname, variant)
+        REGISTRY[key] = c
     return c
 
 
